@@ -9,6 +9,7 @@ CONSTANTS
   ResultFirst = FALSE
   OwnCaseNumber = FALSE
   ParserStripsParens = FALSE
+  Transient = TRUE
   CrashInHeader = TRUE
 CONSTRAINT Progress
 CHECK_DEADLOCK FALSE
